@@ -157,9 +157,27 @@ fn gen_draw(rng: &mut Rng, w: i32, h: i32) -> Op {
     }
 }
 
+/// a star with many vertices (what an implementation might think worth remembering)
+fn big_star(rng: &mut Rng, w: i32, h: i32) -> Path {
+    let n = rng.int(8, 24) as usize * 2;
+    let (cx, cy) = (rng.range(0.2, 0.8) * w as f64, rng.range(0.2, 0.8) * h as f64);
+    let (r0, r1) = (rng.range(0.3, 0.8) * w.min(h) as f64, rng.range(0.1, 0.4) * w.min(h) as f64);
+    let mut pb = PathBuilder::new();
+    for k in 0..n {
+        let a = std::f64::consts::TAU * k as f64 / n as f64;
+        let r = if k % 2 == 0 { r0 } else { r1 };
+        let (x, y) = ((cx + r * a.cos()) as f32, (cy + r * a.sin()) as f32);
+        if k == 0 { pb.move_to(x, y) } else { pb.line_to(x, y) }
+    }
+    pb.close();
+    pb.finish()
+}
+
 fn gen_history(rng: &mut Rng, w: i32, h: i32, len: usize) -> Vec<Unit> {
     let mut units = Vec::new();
     let mut clip_depth = 0;
+    // clip paths pushed so far: the same path comes back later under another enclosing clip
+    let mut pushed_paths: Vec<Path> = Vec::new();
     while units.len() < len {
         let r = rng.below(20);
         match r {
@@ -168,17 +186,20 @@ fn gen_history(rng: &mut Rng, w: i32, h: i32, len: usize) -> Vec<Unit> {
                     let (x0, y0) = (rng.int(-2, w as i64 - 1) as i32, rng.int(-2, h as i64 - 1) as i32);
                     units.push(Unit::One(Op::PushClipRect(x0, y0, x0 + rng.int(0, w as i64 + 2) as i32, y0 + rng.int(0, h as i64 + 2) as i32)));
                 } else {
-                    let p = match rng.below(4) {
+                    let p = match rng.below(9) {
                         0 => {
                             // clip path wholly off the surface
                             rect_path(w as f32 + 10., -30., 5., 5.)
                         }
                         1 => follower(rng, w, h),
+                        4 | 5 => big_star(rng, w, h),
+                        6 | 7 | 8 if !pushed_paths.is_empty() => rng.pick(&pushed_paths[..]).clone(),
                         _ => {
                             let c = rng.chance(0.3);
                             random_path(rng, w, h, c)
                         }
                     };
+                    pushed_paths.push(p.clone());
                     units.push(Unit::One(Op::PushClip(p)));
                 }
                 clip_depth += 1;
